@@ -1,19 +1,53 @@
 (* C05 -- Every resource not serving traffic has been told why; active ones are not.
    Only statements, each closed by [exact] and followed by Print Assumptions.
 
-   FULL STATEMENT (C05_truthful; not yet proved; decided on every run by evaluating
-   Arb.Cases.c05_run on the implementation's own change and problem lists):
-     for every history, after each event, for every object the controller knows (exists, own
-     class): it is active  <->  the most recent report derived from the batches is a success.
-   Proved below: the change half of it for Ingresses, VirtualServers and TransportServers -- for every history
-   a resource is active iff the most recent change handed to the controller about it is an addOrUpdate (the
-   change that carries the success report), so an active resource has had a fresh success after its last
-   removal and a resource whose last change is a removal is not active -- and the soundness of the delta
-   suppression the problem reports go through. *)
+   FULL STATEMENT (C05_truthful):
+     for every history, after each event, for every object the controller knows (last upsert in the
+     cluster, own class): the judge [Arb.Cases.truthful] -- the function evaluated at run time on the
+     implementation's own reports -- returns 0 on the accumulated reports: applied <-> the most recent report
+     is a success; not applied (invalid, lost its host/listener, orphaned, ignored) -> the most recent report
+     is a rejection, warning or problem; and the validation error of the processed object is reported in that
+     very step.
+   Proved below: [C05_truthful_partial] -- exactly that, for Ingresses, masters, minions, VirtualServers,
+   VirtualServerRoutes and TransportServers, valid or not, for EVERY history (no bound), with one verdict left
+   open: 3 for a minion (attached, serving none of its paths, last told "success" without the warning); and
+   [C05_validation_error_reported] for every event in every state.  Hypotheses ([hyps]): what the API server
+   and the validators guarantee (K3; a master has one host, a minion a path, a VirtualServer a host, a route a
+   UID; a passthrough TransportServer is only valid when passthrough is enabled; [ev_role]) and
+   cert_manager = false.  The open verdict and the cert-manager corner are decided on every run by
+   evaluating Arb.Cases.c05_run on the implementation's own change and problem lists. *)
 From Coq Require Import List ZArith String Bool.
-From NIC Require Import Base.SMap Arb.Types Arb.Model Arb.Spec Arb.InvProofs Arb.ClassProofs Arb.Cases Arb.ChangeProofs Arb.ShadowProofs.
+From NIC Require Import Base.SMap Arb.Types Arb.Model Arb.Spec Arb.InvProofs Arb.ClassProofs Arb.Cases Arb.ChangeProofs Arb.ReportProofs Arb.ShadowProofs Arb.ShadowAttrs Arb.Truth01 Arb.Truth07 Arb.Truth17 Arb.Truth18 Arb.Truth22 Arb.Truth24.
 Import ListNotations.
 Open Scope Z_scope.
+
+(* THE STATEMENT.  [cluster es] is what the informers hold after the history: the last upsert of every object that
+   still exists, with the verdicts of the class filter and of the validator.  [last_reports c es] accumulates, per
+   object, the reports of every step ([step_reports]: the transcription of processChanges / processProblems /
+   processChangesFromGlobalConfiguration applied to the batch and the problems of the step), forgetting what was
+   said about an object that was deleted or re-created with another UID.  [view_ob (run c es)] is what
+   GetResources() and the host maps show.  For every such object the judge returns 0 -- or 3 for a minion. *)
+Theorem C05_truthful_partial :
+  forall c es, hyps c es ->
+  forall k e0, lookup k (cluster es) = Some e0 ->
+  truthful c (objs_after es) (view_ob (run c es)) (last_reports c es) k e0 = 0 \/
+  (minion_event e0 /\ truthful c (objs_after es) (view_ob (run c es)) (last_reports c es) k e0 = 3).
+Proof. exact accumulated_reports_truthful. Qed.
+Print Assumptions C05_truthful_partial.
+
+(* the validation error of the object being processed is reported in that very step: in the change that removes
+   it or as a problem about it -- for every event in every state *)
+Theorem C05_validation_error_reported :
+  forall c s e, let '(s', cs, ps) := step c s e in error_reported e (mkObs cs ps [] [] []) = true.
+Proof. exact validation_error_reported. Qed.
+Print Assumptions C05_validation_error_reported.
+
+(* the invariant behind it, for every history: a standing problem has been told and nothing better has been said
+   since; an object whose last upsert was invalid has been told so; an applied object (active resource, attached
+   minion, attached route) has a success as its last report *)
+Theorem C05_report_invariant : forall c es, hyps c es -> inv c es.
+Proof. exact inv_all. Qed.
+Print Assumptions C05_report_invariant.
 
 (* For EVERY history: a resource (Ingress, VirtualServer, TransportServer) is active -- it is in
    GetResources() -- if and only if the most recent change about it, over the whole history, is an
@@ -63,3 +97,17 @@ Example C05_problem_comes_back :
   map fst (hprobs s2) = ["VirtualServer/ns/a"%string] /\ hprobs s3 = [] /\
   map p_obj (host_delta c s3 (EVS (vB "u3") true true)) = ["VirtualServer/ns/a"%string].
 Proof. vm_compute. auto. Qed.
+
+(* Non-vacuity of [C05_truthful_partial]: the history of the example above (a VirtualServer loses its host to an
+   older one, the winner is deleted and comes back under a new UID) satisfies [hyps] with cert_manager off, and the
+   cluster knows two objects at the end. *)
+Example C05_truthful_nonvacuous :
+  let es := [EVS vA true true; EVS (vB "u2") true true; EDelVS "ns/b"; EVS (vB "u3") true true] in
+  hyps (mkCfg true false) es /\ List.length (cluster es) = 2%nat.
+Proof.
+  split; [|vm_compute; reflexivity]. constructor; [reflexivity|repeat constructor| |repeat constructor; discriminate].
+  repeat split; intros a b Ha Hb Hm; cbn [In] in Ha, Hb;
+    destruct Ha as [Ha|[Ha|[Ha|[Ha|[]]]]]; try discriminate Ha; injection Ha as Ea; subst a;
+    destruct Hb as [Hb|[Hb|[Hb|[Hb|[]]]]]; try discriminate Hb; injection Hb as Eb; subst b;
+    first [reflexivity | vm_compute in Hm; discriminate Hm].
+Qed.
